@@ -948,7 +948,15 @@ func (p *Policy) sanitizeStyles(attr html.Attribute, elementName string) html.At
 decLoop:
 	for _, dec := range decs {
 		tempProperty := strings.ToLower(dec.Property)
-		tempValue := removeUnicode(strings.ToLower(dec.Value))
+		tempValue, syntax := removeUnicode(strings.ToLower(dec.Value))
+		if syntax {
+			// an escaped bracket, quote, backslash or semi-colon is an
+			// ordinary character for a CSS parser; judged as the syntax it
+			// decodes to, translate(1px\29; color: red would be taken for
+			// two complete declarations where a browser finds a function
+			// that is never closed and swallows what follows
+			continue decLoop
+		}
 		for _, i := range prefixes {
 			tempProperty = strings.TrimPrefix(tempProperty, i)
 		}
@@ -1318,7 +1326,7 @@ func isDataAttribute(val string) bool {
 	return true
 }
 
-func removeUnicode(value string) string {
+func removeUnicode(value string) (decoded string, syntax bool) {
 	var substitutedValue strings.Builder
 	// every escape is translated exactly once: what an escape translates to
 	// is never itself read as the start of another escape
@@ -1336,13 +1344,16 @@ func removeUnicode(value string) string {
 			// as the replacement character
 			translatedChar = "\uFFFD"
 		}
+		if strings.ContainsAny(translatedChar, "()[]{}\"'\\;") {
+			syntax = true
+		}
 		substitutedValue.WriteString(value[0:currentLoc[0]])
 		substitutedValue.WriteString(translatedChar)
 		value = value[currentLoc[1]:]
 		currentLoc = cssUnicodeChar.FindStringIndex(value)
 	}
 	substitutedValue.WriteString(value)
-	return substitutedValue.String()
+	return substitutedValue.String(), syntax
 }
 
 func (p *Policy) matchRegex(elementName string) (map[string][]attrPolicy, bool) {
